@@ -117,10 +117,37 @@ def stepSeq (st : FullSt) (l : Line) : FullSt × String :=
   ({ pkg := some res.pkg },
    s!"case={str l "case"} class={classOf l}:{str l "f.kind"}{if bool l "f.hit" then "-hit" else ""} model={kind} observed={str l "obs"} monitor={showMon (monitorLine l)} hyp=1 agree={if agree then 1 else 0}")
 
+/-- kind `par` (error responses in flight at the same time): the REGENERATED statement lists of AuthRequestError / TryErrorRedirect
+    (`GenErr.*Program`: which error object each statement addresses) are run for the whole group under the group's schedule on the
+    handed-in error objects (`par.g.cell`: 0 = the one sentinel all requests of the group were handed); the state / session_state
+    the model says THIS response carries must be what the encoder recorded for it, and what the model says the sentinel holds
+    after the group must be what it held (`par.h1`, `par.h1s`) -/
+def parModelOK (l : Line) : Bool :=
+  if str l "kind" != "par" || !has l "par.g.fn" then true else
+  let progOf (f : String) : List ErrPar.Op :=
+    if f == "TryErrorRedirect" then GenErr.tryErrorRedirectProgram else GenErr.authRequestErrorProgram
+  let progs := (list l "par.g.fn").map progOf
+  let states := (list l "par.g.states").map (fun s => hexBytes s.toList)
+  let sess := (list l "par.g.sess").map (fun s => hexBytes s.toList)
+  let cells := (list l "par.g.cell").map (fun s => s.toNat?.getD 0)
+  let ts : Nat → ErrPar.Thread := fun j =>
+    { cell := cells.getD j (j + 1), state := states.getD j [], session := sess.getD j [], prog := progs.getD j [] }
+  let h0 : ErrPar.Heap := fun c => if c = 0 then (bytesOf l "par.h0", bytesOf l "par.h0s") else ([], [])
+  let r := ErrPar.run (ErrPar.schedOf (bool l "par.g.parked") progs) h0 ts
+  let produced := if has l "e" then pairsOf (list l "e") else (parseInput l).params
+  let opt (b : UA.Bytes) : List UA.Bytes := if b.isEmpty then [] else [b]
+  let sentOK :=
+    if (UA.valuesOf "error".toUTF8.toList produced).isEmpty then true else
+    match (r.2 (nat l "par.i")).sent with
+    | some (st, ss) => UA.valuesOf "state".toUTF8.toList produced == opt st && UA.valuesOf "session_state".toUTF8.toList produced == opt ss
+    | none => false
+  let heapOK := !bool l "par.h" || r.1 0 == (bytesOf l "par.h1", bytesOf l "par.h1s")
+  sentOK && heapOK && progs.all (fun p => p.all fun o => match o with | .unsupported _ => false | _ => true)
+
 def step (l : Line) : String :=
   let m := model l
   let hyp := parseHypOK l
-  let agree := observedOutcome l == some m && hyp && sourceModelOK l
+  let agree := observedOutcome l == some m && hyp && sourceModelOK l && parModelOK l
   s!"case={str l "case"} class={classOf l} model={showOutcome m} observed={str l "obs"} monitor={showMon (monitorLine l)} hyp={if hyp then 1 else 0} agree={if agree then 1 else 0}"
 
 end Drv.C11
